@@ -544,13 +544,20 @@ def budget(pl, u, info):
 
 
 # ---------------------------------------------------------------------------------------------- real side + comparison
+def alg_opts(name, n):
+    """keyword arguments of the algorithm object of a float-side case (sent to the driver, whose model threads them to the
+    solver objects: C06_solver_options)"""
+    return {"CG": {"tol": CG_TOL, "max_iters": CG_ITERS}, "GMRES": {"tol": 1e-10, "max_iters": n}}.get(name, {})
+
+
 def make_alg(name, n):
     from cola.linalg import Auto, LU, Cholesky, CG, GMRES
     from cola.linalg.algorithm_base import Algorithm
     if name == "Other":
         return type("PlainAlgorithm", (Algorithm, ), {})()
-    return {"omitted": None, "Auto": Auto(), "LU": LU(), "Cholesky": Cholesky(), "CG": CG(tol=CG_TOL, max_iters=CG_ITERS),
-            "GMRES": GMRES(tol=1e-10, max_iters=n)}[name]
+    kw = alg_opts(name, n)
+    return {"omitted": None, "Auto": Auto(), "LU": LU(), "Cholesky": Cholesky(), "CG": CG(**kw) if name == "CG" else None,
+            "GMRES": GMRES(**kw) if name == "GMRES" else None}[name]
 
 
 def colnorm(v):
@@ -566,8 +573,9 @@ def reference(c, A64, B2):
     return x
 
 
-def run_case(c, model, rskel, err_class):
-    """-> (status, detail, measures); status: ok | ok-error | violation | stale-model | not-compared"""
+def run_case(c, model, rskel, err_class, solver_check=None):
+    """-> (status, detail, measures); status: ok | ok-error | violation | stale-model | not-compared
+    solver_check(B, code) -> None | text: the solver objects inside the real result vs the model's (options included)"""
     import cola
     t, algname = c["tree"], c["alg"]
     n = t["n"]
@@ -612,6 +620,10 @@ def run_case(c, model, rskel, err_class):
         if got != want:
             # keep going: the values decide whether this is a failing input (violation) or only an out-of-date rule model
             struct_problem = f"structure of the returned operator: real {got}, rule model {want}"
+        elif solver_check is not None:
+            sd = solver_check(B, code)
+            if sd is not None:
+                return "violation", "the solver objects inside inv(A, alg) do not carry the caller's options: " + sd, meas
         meas["structure"] = "compared"
     else:
         struct_problem = None
